@@ -229,18 +229,31 @@ Proof.
     injection H as <- _. rewrite (match_one_keeps _ _ _ _ _ _ _ _ _ _ _ Hv E1), (IH t' ms' Hv eq_refl). reflexivity.
 Qed.
 
-Lemma record_matches_flts : forall gid n ms st, r_flts (record_matches gid n ms st) = r_flts st.
+Lemma seek_flts : forall p st s, seek p st = inr s -> r_flts s = r_flts st.
 Proof.
-  intros gid n ms. unfold record_matches. induction ms as [|x ms IH]; intros st; [reflexivity|].
-  cbn [fold_left]. rewrite IH. reflexivity.
+  intros p st s H. unfold seek in H. destruct (existsb _ _); [|injection H as <-; reflexivity].
+  destruct (r_hz st); [discriminate | injection H as <-; reflexivity].
 Qed.
 
-Lemma add_filter_feature_flts : forall vr u st gi n fdom fcfw g c s, v_domain_on_copy vr = true ->
-  add_filter_feature vr u st gi n fdom fcfw g c = inr s -> r_flts s = r_flts st.
+Lemma record_one_flts : forall gid n ir st x s, record_one gid n ir st x = inr s -> r_flts s = r_flts st.
 Proof.
-  intros vr u st gi n fdom fcfw g c s Hv H. unfold add_filter_feature in H.
+  intros gid n ir st x s H. unfold record_one in H. destruct (stored_in _ _); [|injection H as <-; reflexivity].
+  destruct ir; [apply seek_flts in H; exact H | injection H as <-; reflexivity].
+Qed.
+
+Lemma record_matches_flts : forall gid n ir ms st s, record_matches gid n ir ms st = inr s -> r_flts s = r_flts st.
+Proof.
+  intros gid n ir ms. induction ms as [|x ms IH]; intros st s H; cbn [record_matches] in H; [injection H as <-; reflexivity|].
+  destruct (record_one gid n ir st x) as [e|st'] eqn:E; [discriminate|].
+  rewrite (IH _ _ H). exact (record_one_flts _ _ _ _ _ _ E).
+Qed.
+
+Lemma add_filter_feature_flts : forall vr u st gi n fdom fcfw g c ir s, v_domain_on_copy vr = true ->
+  add_filter_feature vr u st gi n fdom fcfw g c ir = inr s -> r_flts s = r_flts st.
+Proof.
+  intros vr u st gi n fdom fcfw g c ir s Hv H. unfold add_filter_feature in H.
   destruct (identity_matched vr u (gi_id gi) (gi_dom gi) fdom fcfw g c (r_flts st)) as [e|[fl' ms]] eqn:E; [discriminate|].
-  injection H as <-. rewrite record_matches_flts. cbn. exact (identity_matched_keeps _ _ _ _ _ _ _ _ _ _ _ Hv E).
+  rewrite (record_matches_flts _ _ _ _ _ _ H). cbn. exact (identity_matched_keeps _ _ _ _ _ _ _ _ _ _ _ Hv E).
 Qed.
 
 Lemma fold_inl : forall A B E (f : E + A -> B -> E + A), (forall e b, f (inl e) b = inl e) ->
@@ -255,7 +268,7 @@ Proof.
   match type of H with match ?X with _ => _ end = _ => destruct X as [e|s1] eqn:E1 end; [discriminate|].
   assert (G : r_flts s1 = r_flts st).
   { destruct (stored_in _ (r_stored st)).
-    - injection E1 as <-. reflexivity.
+    - exact (seek_flts _ _ _ E1).
     - match type of E1 with fold_left _ _ (inr ?s0) = _ =>
         assert (E0 : r_flts s0 = r_flts st) by reflexivity; revert E0 E1; generalize s0 end.
       generalize (gi_inputs gi) as ins. induction ins as [|il ins IHi]; intros s0 E0 E1.
@@ -265,7 +278,7 @@ Proof.
         * rewrite fold_inl in E1 by reflexivity. discriminate.
         * apply (IHi s2); [rewrite (IH _ _ _ _ _ _ _ _ _ _ E2); exact E0 | exact E1]. }
   destruct uf.
-  - rewrite (add_filter_feature_flts _ _ _ _ _ _ _ _ _ _ Hv H). exact G.
+  - rewrite (add_filter_feature_flts _ _ _ _ _ _ _ _ _ _ _ Hv H). exact G.
   - injection H as <-. exact G.
 Qed.
 
@@ -296,7 +309,7 @@ Proof.
   destruct (phase1 _ _ _ _) as [h1 [e|]]; [reflexivity|].
   pose proof (phase2_flts vr u fuel (c_filter c) Hv
                 (if c_copy c then map (fun a => a + List.length (hF w)) (c_feats c) else c_feats c)
-                {| p_heap := h1; p_r := rst0 (w_filters w) |}) as H.
+                {| p_heap := h1; p_r := rst0 (w_filters w) (c_hz c) |}) as H.
   destruct (phase2 _ _ _ _ _ _) as [st e]. exact H.
 Qed.
 
@@ -316,8 +329,8 @@ Proof.
   destruct (phase1 (c_api c) (c_strict c) (work_heap w c) (work_addrs w c)) as [h1 [e|]]; cbn [fst] in I1.
   - exists h1. cbn. auto.
   - pose proof (Inv_phase2 (work_addrs w c) (work_heap w c) vr u fuel (c_filter c) (work_addrs w c)
-                  {| p_heap := h1; p_r := rst0 (w_filters w) |} I1 (incl_refl _)) as I2.
-    destruct (phase2 vr u fuel (c_filter c) {| p_heap := h1; p_r := rst0 (w_filters w) |} (work_addrs w c)) as [st e].
+                  {| p_heap := h1; p_r := rst0 (w_filters w) (c_hz c) |} I1 (incl_refl _)) as I2.
+    destruct (phase2 vr u fuel (c_filter c) {| p_heap := h1; p_r := rst0 (w_filters w) (c_hz c) |} (work_addrs w c)) as [st e].
     cbn [fst] in I2. destruct (c_links c && negb (validate_links (w_links w))).
     + exists h1. cbn. auto.
     + exists (p_heap st). cbn. auto.
@@ -467,39 +480,62 @@ Proof.
   apply existsb_exists. exists p. split; [apply Hi; exact Hp | exact E].
 Qed.
 
-Lemma record_matches_spec : forall gid n ms st,
-  PInv st -> touches (r_stored st) (gid, n) = true ->
-  PInv (record_matches gid n ms st) /\ incl (r_stored st) (r_stored (record_matches gid n ms st)) /\
-  r_ladds (record_matches gid n ms st) = r_ladds st.
+Lemma PInv_ext : forall st st', r_stored st' = r_stored st -> r_ladds st' = r_ladds st -> r_fadds st' = r_fadds st ->
+  PInv st -> PInv st'.
+Proof. intros st st' A B C [P Q]. split; [rewrite A, B; exact P | rewrite A, C; exact Q]. Qed.
+
+Lemma seek_spec : forall p st s, seek p st = inr s ->
+  r_stored s = r_stored st /\ r_ladds s = r_ladds st /\ r_fadds s = r_fadds st.
 Proof.
-  intros gid n. unfold record_matches.
-  induction ms as [|x ms IH]; intros st HP HT; [cbn; auto using incl_refl|].
-  cbn [fold_left].
+  intros p st s H. unfold seek in H. destruct (existsb _ _); [|injection H as <-; auto].
+  destruct (r_hz st); [discriminate | injection H as <-; auto].
+Qed.
+
+Lemma record_one_spec : forall gid n ir st x s, record_one gid n ir st x = inr s ->
+  PInv st -> touches (r_stored st) (gid, n) = true ->
+  PInv s /\ incl (r_stored st) (r_stored s) /\ r_ladds s = r_ladds st.
+Proof.
+  intros gid n ir st x s H HP HT. unfold record_one in H.
   set (ff := {| pf_gid := gid; pf_name := ft_name x; pf_g := ft_opts x; pf_c := []; pf_link := None; pf_dtype := None;
-                pf_child := None; pf_dom := ft_dom x |}).
-  set (st1 := {| r_stored := if stored_in ff (r_stored st) then r_stored st else r_stored st ++ [ff];
-                 r_ladds := r_ladds st; r_fadds := r_fadds st ++ [((gid, n), x)]; r_flts := r_flts st |}).
-  assert (Hi : incl (r_stored st) (r_stored st1)).
-  { cbn. destruct (stored_in ff (r_stored st)); [apply incl_refl | apply incl_appl, incl_refl]. }
-  assert (HP1 : PInv st1).
-  { destruct HP as [A B]. split; cbn [r_ladds r_fadds r_stored st1].
+                pf_child := None; pf_dom := ft_dom x |}) in *.
+  assert (K : forall stored', incl (r_stored st) stored' ->
+            PInv {| r_stored := stored'; r_ladds := r_ladds st; r_fadds := r_fadds st ++ [((gid, n), x)];
+                    r_flts := r_flts st; r_hz := r_hz st |}).
+  { intros stored' Hi. destruct HP as [A B]. split; cbn [r_ladds r_fadds r_stored].
     - intros y Hy. destruct (A y Hy) as (p & Hp & E). exists p. split; [apply Hi; exact Hp | exact E].
     - intros kx Hk. apply in_app_or in Hk. destruct Hk as [Hk|[<-|[]]].
       + eapply touches_incl; [exact Hi | apply B; exact Hk].
       + cbn [fst]. eapply touches_incl; [exact Hi | exact HT]. }
-  destruct (IH st1 HP1 (touches_incl _ _ _ Hi HT)) as (P2 & I2 & L2).
-  split; [exact P2|]. split; [eapply incl_tran; [exact Hi | exact I2] | rewrite L2; reflexivity].
+  destruct (stored_in ff (r_stored st)).
+  - destruct ir.
+    + destruct (seek_spec _ _ _ H) as (A & B & C). split; [|split].
+      * exact (PInv_ext _ s A B C (K (r_stored st) (incl_refl _))).
+      * rewrite A. cbn. apply incl_refl.
+      * rewrite B. reflexivity.
+    + injection H as <-. split; [apply (K (r_stored st)), incl_refl | split; [apply incl_refl | reflexivity]].
+  - injection H as <-. split; [apply K, incl_appl, incl_refl | split; [cbn; apply incl_appl, incl_refl | reflexivity]].
 Qed.
 
-Lemma add_filter_feature_spec : forall vr u st gi n fdom fcfw g c s,
-  add_filter_feature vr u st gi n fdom fcfw g c = inr s ->
+Lemma record_matches_spec : forall gid n ir ms st s, record_matches gid n ir ms st = inr s ->
+  PInv st -> touches (r_stored st) (gid, n) = true ->
+  PInv s /\ incl (r_stored st) (r_stored s) /\ r_ladds s = r_ladds st.
+Proof.
+  intros gid n ir. induction ms as [|x ms IH]; intros st s H HP HT; cbn [record_matches] in H.
+  - injection H as <-. auto using incl_refl.
+  - destruct (record_one gid n ir st x) as [e|st1] eqn:E; [discriminate|].
+    destruct (record_one_spec _ _ _ _ _ _ E HP HT) as (P1 & I1 & L1).
+    destruct (IH st1 s H P1 (touches_incl _ _ _ I1 HT)) as (P2 & I2 & L2).
+    split; [exact P2|]. split; [eapply incl_tran; eassumption | congruence].
+Qed.
+
+Lemma add_filter_feature_spec : forall vr u st gi n fdom fcfw g c ir s,
+  add_filter_feature vr u st gi n fdom fcfw g c ir = inr s ->
   PInv st -> touches (r_stored st) (gi_id gi, n) = true ->
   PInv s /\ incl (r_stored st) (r_stored s) /\ r_ladds s = r_ladds st.
 Proof.
-  intros vr u st gi n fdom fcfw g c s H HP HT. unfold add_filter_feature in H.
-  destruct (identity_matched _ _ _ _ _ _ _ _ _) as [e|[fl' ms]]; [discriminate|]. injection H as <-.
-  apply (record_matches_spec (gi_id gi) n ms
-           {| r_stored := r_stored st; r_ladds := r_ladds st; r_fadds := r_fadds st; r_flts := fl' |}).
+  intros vr u st gi n fdom fcfw g c ir s H HP HT. unfold add_filter_feature in H.
+  destruct (identity_matched _ _ _ _ _ _ _ _ _) as [e|[fl' ms]]; [discriminate|].
+  apply (record_matches_spec _ _ _ _ _ _ H).
   - destruct HP as [A B]. split; cbn; assumption.
   - exact HT.
 Qed.
@@ -520,14 +556,15 @@ Proof.
   match type of H with match ?X with _ => _ end = _ => destruct X as [e1|s1] eqn:E1 end; [discriminate|].
   assert (G : PInv s1 /\ incl (r_stored st) (r_stored s1) /\ touches (r_stored s1) (gi_id gi, n) = true).
   { destruct (stored_in p (r_stored st)) eqn:Es.
-    - injection E1 as <-. split; [exact HP|]. split; [apply incl_refl|].
+    - destruct (seek_spec _ _ _ E1) as (A & B & C).
+      split; [exact (PInv_ext st s1 A B C HP)|]. rewrite A. split; [apply incl_refl|].
       unfold stored_in in Es. apply existsb_exists in Es. destruct Es as (q & Hq & Eq).
-      apply pf_eqb_key in Eq. cbn in Eq. destruct Eq as [E1 E2].
+      apply pf_eqb_key in Eq. cbn in Eq. destruct Eq as [E3 E2].
       unfold touches. apply existsb_exists. exists q. split; [exact Hq|]. cbn.
-      rewrite <- E1, <- E2, Nat.eqb_refl, String.eqb_refl. reflexivity.
+      rewrite <- E3, <- E2, Nat.eqb_refl, String.eqb_refl. reflexivity.
     - set (st0 := {| r_stored := r_stored st ++ [p];
                      r_ladds := match l with Some x => r_ladds st ++ [x] | None => r_ladds st end;
-                     r_fadds := r_fadds st; r_flts := r_flts st |}) in *.
+                     r_fadds := r_fadds st; r_flts := r_flts st; r_hz := r_hz st |}) in *.
       assert (P0 : PInv st0).
       { destruct HP as [A B]. split; cbn [st0 r_stored r_ladds r_fadds].
         - intros x Hx. assert (Hx' : In x (r_ladds st) \/ l = Some x).
@@ -550,7 +587,7 @@ Proof.
         * destruct (IH _ _ _ _ _ _ _ _ _ _ P0 E2) as [P2 I2].
           apply (IHi s2 P2 (incl_tran I0 I2) (touches_incl _ _ _ I2 T0) E1). }
   destruct G as (P1 & I1 & T1). destruct uf.
-  - destruct (add_filter_feature_spec _ _ _ _ _ _ _ _ _ _ H P1 T1) as (P2 & I2 & _).
+  - destruct (add_filter_feature_spec _ _ _ _ _ _ _ _ _ _ _ H P1 T1) as (P2 & I2 & _).
     split; [exact P2 | eapply incl_tran; eassumption].
   - injection H as <-. split; assumption.
 Qed.
@@ -567,8 +604,8 @@ Proof.
   destruct (phase2_one vr u fuel uf st a) as [st' [e|]]; cbn [fst] in *; [exact H1 | apply IH; exact H1].
 Qed.
 
-Lemma PInv_rst0 : forall fl, PInv (rst0 fl).
-Proof. intros fl. split; intros ? []. Qed.
+Lemma PInv_rst0 : forall fl hz, PInv (rst0 fl hz).
+Proof. intros fl hz. split; intros ? []. Qed.
 
 (* every link the call adds to the caller's set is the link attached to a feature the call stored, and every key under
    which it records a filter is (group, name) of a feature it stored *)
@@ -580,7 +617,7 @@ Proof.
   destruct (phase1 _ _ _ _) as [h1 [e|]]; [split; intros ? []|].
   pose proof (phase2_spec as_implemented u fuel (c_filter c)
                 (if c_copy c then map (fun a => a + List.length (hF w)) (c_feats c) else c_feats c)
-                {| p_heap := h1; p_r := rst0 (w_filters w) |} (PInv_rst0 _)) as HP.
+                {| p_heap := h1; p_r := rst0 (w_filters w) (c_hz c) |} (PInv_rst0 _ _)) as HP.
   destruct (phase2 _ _ _ _ _ _) as [st e]. exact HP.
 Qed.
 
@@ -774,7 +811,7 @@ Definition exw (links : list link) : world :=
      hO := [ {| og := [("x", VZ 1)]; oc := [] |}; {| og := [("x", VZ 2)]; oc := [] |}; {| og := []; oc := [] |} ];
      w_links := links; w_filters := [fb]; w_coll := [] |}.
 Definition cl (fs : list nat) (copy lnk fil : bool) (api : option cols) : call :=
-  {| c_feats := fs; c_copy := copy; c_strict := false; c_api := api; c_links := lnk; c_filter := fil |}.
+  {| c_feats := fs; c_copy := copy; c_strict := false; c_api := api; c_links := lnk; c_filter := fil; c_hz := 100 |}.
 Definition is_accepted (o : outcome) : bool := match o with Accepted _ _ => true | _ => false end.
 Definition seen_links (o : outcome) : list link := match o with Accepted _ l => l | _ => [] end.
 
@@ -869,4 +906,20 @@ Lemma domains_example_l :
   call_matched exd 8 (exwd [mkflt "v" (Some 1) None]) (cl [0; 1] true false true None) = [((0, "v"), mkflt "v" (Some 1) (Some [0]))] /\
   snd (plan_call exd 8 (exwd [mkflt "p" (Some 2) None]) (cl [3] true false true None)) = Failed EDomCmp /\
   call_matched exd 8 (exwd [mkflt "v" None (Some [1])]) (cl [0] true false true None) = [].
+Proof. vm_compute. repeat split; reflexivity. Qed.
+
+(* The look-up of an equal stored feature may compare a domain-less feature with its domain-carrying namesake first
+   (set iteration order, c_hz).  Group 0 (domain 3) provides x, y; t2 = f(x, y) in a default-domain group; the caller's
+   domain-less filter on x: while y is processed the filter feature x@3 -- stored when x was processed -- is looked up
+   in a collection that also holds the input feature x without domain. *)
+Definition exg : universe :=
+  [("x", gD 0 3); ("y", gD 0 3);
+   ("t2", {| gi_id := 1; gi_cfw := [0]; gi_api := false; gi_dtype := None; gi_inputs := [inp0 "x"; inp0 "y"]; gi_dom := 0 |})].
+Definition exwg : world :=
+  {| hF := [mkf "t2" 0 None]; hO := [ {| og := []; oc := [] |} ]; w_links := []; w_filters := [mkflt "x" None None]; w_coll := [] |}.
+Lemma set_order_hazard_l :
+  snd (plan_call exg 8 exwg (with_hz (cl [0] true false true None) 0)) = Failed EDomCmp /\
+  step_filters_of (snd (plan_call exg 8 exwg (with_hz (cl [0] true false true None) 1)))
+    = [(1, []); (0, [mkflt "x" (Some 3) (Some [0])])] /\
+  fst (plan_call exg 8 exwg (with_hz (cl [0] true false true None) 0)) = exwg.
 Proof. vm_compute. repeat split; reflexivity. Qed.
